@@ -560,3 +560,9 @@ twin("c03-twin-status-replace", "C03", (SPAR, '        meta = re.sub(r"[\\r\\n]+
 fault("c03-status-only-lf", "C03", "R03g", (SPAR, '        meta = re.sub(r"[\\r\\n]+", " ", meta)\n', '        meta = meta.replace("\\n", " ")\n'))
 fault("c06-d22-unfixed", "C06", "R06b", (PBASE, '        if len(selector) and selector[-1] == "/" and selector[-2:-1] != "/":', '        if len(selector) and selector[-1] == "/":'))
 twin("c06-twin-normalize-endswith", "C06", (PBASE, '        if len(selector) and selector[-1] == "/" and selector[-2:-1] != "/":', '        if selector.endswith("/") and not selector.endswith("//"):'))
+
+fault("c16-link-clamped-at-root", "C16", "R16e", (ZIP, '                    dest = os.path.join(os.path.dirname(item["pathname"]), item["dest"])\n                    dest = os.path.normpath(dest)', '                    dest = os.path.normpath(os.path.join("/", os.path.dirname(item["pathname"]), item["dest"])).lstrip("/")'))
+twin("c16-twin-link-oneliner", "C16", (ZIP, '                    dest = os.path.join(os.path.dirname(item["pathname"]), item["dest"])\n                    dest = os.path.normpath(dest)', '                    dest = os.path.normpath(os.path.join(os.path.dirname(item["pathname"]), item["dest"]))'))
+fault("c17-repeat-map-shared", "C17", "R17h", (TALES, "\t\tself.repeatStack.append (self.repeatMap)\n\t\tself.repeatMap = self.repeatMap.copy()\n", ""), (TALES, "\t\tself.repeatMap = self.repeatStack.pop()\n", "\t\tself.repeatMap.pop (name, None)\n"))
+fault("c18-locals-not-copied", "C18", "R18c", (TALES, "\t\tself.locals = self.locals.copy()\n", ""))
+twin("c18-twin-locals-dict-copy", "C18", (TALES, "\t\tself.locals = self.locals.copy()\n", "\t\tself.locals = dict (self.locals)\n"))
